@@ -7,9 +7,9 @@ func init() {
 		Harness:    []string{"interp_common.go", "big_common.go", "C12.go", "C12_rules.go"},
 		Instrument: runidInstr, ValidateRun: "^TestVerifValidateC12$", TestFiles: []string{"C12_validate.go.txt"},
 		Redirects: map[string]string{
-			interpPath + ".genGlobalVars": "vmGenGlobalVarsFail",
+			interpPath + ".genGlobalVars":          "vmGenGlobalVarsFail",
 			"(*" + interpPath + ".node).cfgErrorf": "vmRuleErrorf",
-			interpPath + ".vhGoAcceptsBinary": "vmGoAcceptsBinary", interpPath + ".vhGoAcceptsUnary": "vmGoAcceptsUnary", interpPath + ".vhGoAcceptsAssign": "vmGoAcceptsAssign", interpPath + ".vhGoAcceptsConst": "vmGoAcceptsConst", interpPath + ".vhGoAcceptsAssignConst": "vmGoAcceptsAssignConst", interpPath + ".vhGoAcceptsAssert": "vmGoAcceptsAssert",
+			interpPath + ".vhGoAcceptsBinary":      "vmGoAcceptsBinary", interpPath + ".vhGoAcceptsUnary": "vmGoAcceptsUnary", interpPath + ".vhGoAcceptsAssign": "vmGoAcceptsAssign", interpPath + ".vhGoAcceptsConst": "vmGoAcceptsConst", interpPath + ".vhGoAcceptsAssignConst": "vmGoAcceptsAssignConst", interpPath + ".vhGoAcceptsAssert": "vmGoAcceptsAssert",
 			ip + "parse": "vmParse", ip + "ast": "vmAst", ip + "gtaRetry": "vmGtaRetry", ip + "cfg": "vmCfg", ip + "Execute": "vmExecute",
 		},
 		Obligs: func(tier string) []Oblig {
